@@ -519,10 +519,40 @@ func (g *genState) genOp() Op {
 	}
 }
 
+// genPlanHuge: the size boundary of a record. A message whose key+value is within a few
+// bytes of the 64 MiB the writers accept must read back like any other (C13: "and a few
+// large"); it is expensive, so only about one run in 400 of the format profile does it.
+func genPlanHuge(prop, tier string, seed uint64, run int64, rng *Rng) *Plan {
+	cfg := RunCfg{Profile: "format", StartUS: defaultStartUS, Keys: rng.Bool(), Times: rng.Bool(), Monotone: true, ObsSeed: rng.U64(),
+		KeySet: [][]byte{nil, []byte("a")}, Open: OpenOpts{Rollover: 0, NewV: rng.Pick(0, 40, 60)}}
+	plan := &Plan{Prop: prop, Engine: "H", Tier: tier, Seed: seed, Run: run, Cfg: cfg}
+	const limit = 64 << 20
+	d := []int{0, 1, 8, 31, 32, 33, 100}[rng.Intn(7)]
+	key := []byte("huge-key-1")
+	val := make([]byte, limit-len(key)-d)
+	for i := 0; i < len(val); i += 4096 {
+		val[i] = byte(i >> 12)
+	}
+	small := func(c byte) PMsg { return PMsg{Key: []byte("a"), Val: []byte{0, 0, 0, c, 'x'}, TMode: 0, TV: 1} }
+	plan.Ops = []Op{
+		{K: "pub", Msgs: []PMsg{small(1)}},
+		{K: "pub", Msgs: []PMsg{{Key: key, Val: val, TMode: 0, TV: 1}}},
+		{K: "pub", Msgs: []PMsg{small(2)}},
+	}
+	if rng.Bool() {
+		o := cfg.Open
+		plan.Ops = append(plan.Ops, Op{K: "reopen", Open: &o})
+	}
+	return plan
+}
+
 // GenPlanH builds the plan of one engine-H run.
 func GenPlanH(prop, profName, tier string, seed uint64, run int64) *Plan {
 	rng := NewRng(seed)
 	p := profiles[profName]
+	if profName == "format" && rng.Intn(400) == 0 {
+		return genPlanHuge(prop, tier, seed, run, rng)
+	}
 	cfg, g := genRunCfg(rng, p)
 	n := rng.Range(p.minOps, p.maxOps)
 	if tier == "thorough" && rng.Chance(30) {
